@@ -46,7 +46,7 @@ def _secret():
     return st.one_of(
         xml_text, xml_text,
         st.sampled_from(["", "a", "pässwörd-ünïcode", "correct horse battery staple", "P@ssw0rd!<&>\"'", " x ", "密码密码密码密码",
-                         "user:pass", "admin123:hunter22", ":", "a:b:c", "c2FsdA==:ZGlnZXN0", "dXNlcm5hbWU6cGFzc3dvcmQ="]),
+                         "caf\u00e9", "cafe\u0301", "\u212b", "\u00c5ngstr\u00f6m", "\u1112\u1161\u11ab", "\ud55c", "user:pass", "admin123:hunter22", ":", "a:b:c", "c2FsdA==:ZGlnZXN0", "dXNlcm5hbWU6cGFzc3dvcmQ="]),
         st.binary(max_size=40),
         st.integers(64, 4096).flatmap(lambda n: st.sampled_from(["x", "aB", "é", "Zq ", "PassWord-"]).map(lambda c: (c * n)[:n])),
     )
@@ -64,11 +64,17 @@ def _other(p):
             return p[:-1] + chr(ord(p[-1]) ^ 1 if ord(p[-1]) ^ 1 not in range(0xD800, 0xE000) else 0x41)
         if kind == "case" and p.swapcase() != p:
             return p.swapcase()
+        if kind == "unicode-form":
+            import unicodedata
+            for form in ("NFD", "NFC", "NFKC"):
+                alt = unicodedata.normalize(form, p)
+                if alt != p:
+                    return alt
         if kind == "trunc" and p:
             return p[:-1]
         return p + " "
     return st.one_of(
-        st.sampled_from(["flip", "case", "trunc", "space"]).map(lambda k: {"v": near(k), "near": True}),
+        st.sampled_from(["flip", "case", "trunc", "space", "unicode-form", "unicode-form"]).map(lambda k: {"v": near(k), "near": True}),
         _secret().map(lambda v: {"v": v, "near": False}),
     )
 
